@@ -9,19 +9,41 @@ kind == "fuzz": native go fuzzing (thorough only): fuzz (target), fuzztime.
 Q, T = "quick", "thorough"
 
 PROPS = {
+    "C07": {"engines": [
+        {"name": "controller", "pkg": "controller", "run": "^TestVerifC07Ctrl$",
+         "checks": {Q: 12000, T: 1600000}, "shards": {Q: 4, T: 16}},
+    ]},
+    "C06": {"engines": [
+        {"name": "controller-witness", "pkg": "controller", "run": "^TestVerifCtrlWitness$", "rapid": False, "env": {"VERIF_WITNESS_PROP": "C06"},
+         "checks": {Q: 1, T: 1}, "shards": {Q: 1, T: 1}},
+        {"name": "controller", "pkg": "controller", "run": "^TestVerifC06Ctrl$",
+         "checks": {Q: 12000, T: 1600000}, "shards": {Q: 4, T: 16}},
+    ]},
+    "C03": {"engines": [
+        {"name": "controller", "pkg": "controller", "run": "^TestVerifC03Ctrl$",
+         "checks": {Q: 12000, T: 1600000}, "shards": {Q: 4, T: 16}},
+    ]},
     "C01": {"engines": [
+        {"name": "controller", "pkg": "controller", "run": "^TestVerifC01Ctrl$",
+         "checks": {Q: 12000, T: 1600000}, "shards": {Q: 4, T: 16}},
         {"name": "alloc-api", "pkg": "internal/allocator", "run": "^TestVerifC01Alloc$",
-         "checks": {Q: 4000, T: 640000}, "shards": {Q: 2, T: 16}},
+         "checks": {Q: 12000, T: 1600000}, "shards": {Q: 4, T: 16}},
     ]},
     "C02": {"engines": [
+        {"name": "controller-witness", "pkg": "controller", "run": "^TestVerifCtrlWitness$", "rapid": False, "env": {"VERIF_WITNESS_PROP": "C02"},
+         "checks": {Q: 1, T: 1}, "shards": {Q: 1, T: 1}},
+        {"name": "controller", "pkg": "controller", "run": "^TestVerifC02Ctrl$",
+         "checks": {Q: 12000, T: 1600000}, "shards": {Q: 4, T: 16}},
         {"name": "alloc-api", "pkg": "internal/allocator", "run": "^TestVerifC02Alloc$",
-         "checks": {Q: 4000, T: 640000}, "shards": {Q: 2, T: 16}},
+         "checks": {Q: 12000, T: 1600000}, "shards": {Q: 4, T: 16}},
         {"name": "alloc-api-witness", "pkg": "internal/allocator", "run": "^TestVerifC02AllocWitness$", "rapid": False,
          "checks": {Q: 1, T: 1}, "shards": {Q: 1, T: 1}},
     ]},
     "C11": {"engines": [
+        {"name": "controller", "pkg": "controller", "run": "^TestVerifC11Ctrl$",
+         "checks": {Q: 12000, T: 1600000}, "shards": {Q: 4, T: 16}},
         {"name": "alloc-api", "pkg": "internal/allocator", "run": "^TestVerifC11Alloc$",
-         "checks": {Q: 4000, T: 640000}, "shards": {Q: 2, T: 16}},
+         "checks": {Q: 12000, T: 1600000}, "shards": {Q: 4, T: 16}},
     ]},
     "C08": {"engines": [
         {"name": "config", "pkg": "internal/config", "run": "^TestVerifC08Config$",
